@@ -191,3 +191,34 @@ Example c03_witness :
          {| o_ret := RUnit; o_emitted := [line]; o_handled := [] |};
          {| o_ret := RUnit; o_emitted := []; o_handled := [EInvalid] |} ].
 Proof. vm_compute. reflexivity. Qed.
+
+(* ==== added after the audit of 2026-10-02 (selftest/audit/REPORT-2026-10-02.md) ==== *)
+Require Import Cadence.Proofs.AuditM1.
+(* a sequence of calls has outcomes iff every call of it type-checks (no other stuck state) *)
+Theorem c03_sequence_defined : forall cfg cs script,
+  send_calls cfg cs script <> None <->
+  Forall (fun fc => to_value (k_kind (snd fc)) (k_arg (snd fc)) <> None) cs.
+Proof. exact send_calls_defined_Forall. Qed.
+
+(* complete form: then there is one outcome per call; the sequence is stuck iff SOME call is
+   ill-typed; and this depends on the (kind, argument) pairs only — not on the client
+   configuration, keys, builder calls, call forms or the sink's answers *)
+Theorem c03_sequence_defined_full : forall cfg cs script,
+  (Forall (fun fc => to_value (k_kind (snd fc)) (k_arg (snd fc)) <> None) cs ->
+     exists os, send_calls cfg cs script = Some os /\ length os = length cs) /\
+  (send_calls cfg cs script = None <->
+     exists i fm c, nth_error cs i = Some (fm, c) /\ to_value (k_kind c) (k_arg c) = None) /\
+  (forall cfg' script' cs', map (fun fc => (k_kind (snd fc), k_arg (snd fc))) cs' =
+                            map (fun fc => (k_kind (snd fc), k_arg (snd fc))) cs ->
+     (send_calls cfg' cs' script' = None <-> send_calls cfg cs script = None)).
+Proof. exact send_calls_defined_full. Qed.
+
+Example c03_sequence_defined_witness :
+  let cfg := {| c_prefix := []; c_tags := []; c_container := None |} in
+  let ok := {| k_kind := Counter; k_key := [107]%N; k_arg := AI64 1; k_ops := [] |} in
+  let rej := {| k_kind := Timer; k_key := [107]%N; k_arg := AVecU64 []; k_ops := [] |} in
+  let ill := {| k_kind := SetK; k_key := [107]%N; k_arg := AU64 1; k_ops := [] |} in
+  option_map (@length _) (send_calls cfg [(Quiet, ok); (Plain, rej); (TrySend, ok)] [Refuse 1 2]) = Some 3 /\
+  send_calls cfg [(Quiet, ok); (Plain, ill); (TrySend, ok)] [Refuse 1 2] = None /\
+  to_value (k_kind ill) (k_arg ill) = None.
+Proof. exact send_calls_defined_witness. Qed.
